@@ -93,7 +93,9 @@ def cases(tier, seed):
                     Mach_number=float(np.round(rng.uniform(0.3, 0.9), 3)), re=1e6, cg=[float(np.round(rng.uniform(-1, 2), 3)), 0.0, 0.2])
         if k % 4 == 3:
             flow["height_agl"] = float(np.round(rng.uniform(5, 40), 2))
-        out.append(dict(kind="halves", surfaces=surfs, flow=flow, compressible=bool(k % 4 == 1), _cost=3 * ns))
+        # which surfaces are represented by their right half in the second model: all of them, or only some (mixed handedness)
+        flip = [True] * ns if k % 2 == 0 else [bool(i % 2 == (k // 2) % 2) for i in range(ns)]
+        out.append(dict(kind="halves", surfaces=surfs, flow=flow, compressible=bool(k % 4 == 1), flip=flip, _cost=3 * ns))
     dvs = ["span", "sweep", "dihedral", "taper", "chord_cp", "twist_cp", "xshear_cp", "yshear_cp", "zshear_cp"]
     reps = 2 if tier == "quick" else 10
     for rep in range(reps):
@@ -226,15 +228,17 @@ def run_as_symmetric(c, o):
 def run_halves(c, o):
     L = zoo.build_aero(dict(surfaces=c["surfaces"], flow=c["flow"], compressible=c["compressible"]), geom=False)
     zoo.run(L)
-    surfsR = [dict(s, mesh=reflect_mesh_spec(s["mesh"])) for s in c["surfaces"]]
+    flip = c.get("flip") or [True] * len(c["surfaces"])
+    surfsR = [dict(s, mesh=reflect_mesh_spec(s["mesh"])) if f else dict(s) for s, f in zip(c["surfaces"], flip)]
     Rm = zoo.build_aero(dict(surfaces=surfsR, flow=c["flow"], compressible=c["compressible"]), geom=False)
     zoo.run(Rm)
     ground = any(s.get("groundplane") for s in c["surfaces"])
-    tags = ["ground" if ground else "free", "compressible" if c["compressible"] else "incompressible"]
+    tags = ["ground" if ground else "free", "compressible" if c["compressible"] else "incompressible", "handedness=" + "".join("R" if f else "L" for f in flip)]
     fs = max(np.abs(zoo.get(L, "aero.aero_states.%s_sec_forces" % s["name"])).max() for s in c["surfaces"])
-    for s in c["surfaces"]:
+    for s, f in zip(c["surfaces"], flip):
         n = s["name"]
-        o.close("halves/sec_forces", zoo.get(Rm, "aero.aero_states.%s_sec_forces" % n), rev_panels(zoo.get(L, "aero.aero_states.%s_sec_forces" % n)), rtol=1e-9, scale=fs, tags=tags)
+        FL = zoo.get(L, "aero.aero_states.%s_sec_forces" % n)
+        o.close("halves/sec_forces", zoo.get(Rm, "aero.aero_states.%s_sec_forces" % n), rev_panels(FL) if f else FL, rtol=1e-9, scale=fs, tags=tags)
         for q in ("CL", "CD", "CDi", "CDv", "CDw", "L", "D"):
             o.close("halves/scalars", zoo.get(Rm, "aero.%s_perf.%s" % (n, q)), zoo.get(L, "aero.%s_perf.%s" % (n, q)), rtol=1e-9, atol=1e-13, tags=tags + [q])
         o.close("halves/S_ref", zoo.get(Rm, "aero.%s.S_ref" % n), zoo.get(L, "aero.%s.S_ref" % n), rtol=1e-12, tags=tags)
